@@ -187,6 +187,15 @@ func runC06(c *ShardCtx) {
 					{Name: "E", Expr: peg.Choice(peg.Action(0, peg.Seq(peg.Ref("E"), peg.Ref("T"), lit(t))), peg.Ref("T"))}, {Name: "T", Expr: peg.Action(0, peg.Cls(false, false, "a", "b"))}}},
 			)
 		}
+		// a nullable alternative that can fail in front of the left-recursive alternative, in the
+		// leader and in the non-leader of an indirect cycle
+		for _, guard := range []func() *peg.Expr{func() *peg.Expr { return peg.And(lit("b")) }, func() *peg.Expr { return peg.Not(lit("a")) }, func() *peg.Expr { return peg.Seq(peg.Opt(lit("b")), peg.And(lit("b"))) }} {
+			lrs = append(lrs,
+				&peg.Grammar{Rules: []*peg.Rule{{Name: "A", Expr: peg.Choice(peg.Seq(peg.Ref("B"), lit("a")), peg.Seq(peg.Ref("A"), lit("b")), lit("a"))}, {Name: "B", Expr: peg.Choice(guard(), peg.Seq(peg.Ref("A"), lit("b")), lit("b"))}}},
+				&peg.Grammar{Rules: []*peg.Rule{{Name: "B", Expr: peg.Choice(peg.Seq(peg.Ref("Z"), lit("a")), peg.Seq(peg.Ref("B"), lit("b")), lit("a"))}, {Name: "Z", Expr: peg.Choice(guard(), peg.Seq(peg.Ref("B"), lit("b")), lit("b"))}}},
+				&peg.Grammar{Rules: []*peg.Rule{{Name: "S", Expr: peg.Action(0, peg.Label("v", peg.Ref("A")))}, {Name: "A", Expr: peg.Choice(guard(), peg.Action(0, peg.Seq(peg.Label("l", peg.Ref("B")), lit("a"))), lit("a"))}, {Name: "B", Expr: peg.Choice(peg.Seq(peg.Ref("A"), lit("b")), peg.Seq(peg.Ref("B"), lit("a")), lit("b"))}}},
+			)
+		}
 		savedInputs := inputs
 		inputs = peg.Inputs([]string{"a", "b"}, 5) // two growth rounds through the non-leader need 5 bytes
 		for _, g := range lrs {
